@@ -60,6 +60,12 @@ func (c *Ctx) requestScoped(rule string, what string, floor int, isCred func(typ
 				return true
 			}
 			switch x := v.(type) {
+			case *ssa.Parameter:
+				// a list of response messages handed down by the caller
+				if sl, ok := x.Type().Underlying().(*types.Slice); ok && isCred(sl.Elem()) {
+					return true
+				}
+				return false
 			case *ssa.FieldAddr:
 				v = x.X
 			case *ssa.IndexAddr:
